@@ -365,6 +365,42 @@ def facts_seqgen(repo, lean):
 
 
 
+FUTGEN_EXPECTED_EXCEPTIONS = ['Flap', 'With', 'Chain1', 'Applicative1', 'Await', 'getExecutor',
+                              'Flap2', 'Flap3', 'Flap4', 'Flap5', 'Flap6', 'Flap7', 'Flap8', 'Flap9']
+
+
+def facts_futgen(repo, lean):
+    """Tie A for the derived future combinators: harness/cmd/fut2lean TRANSLATES every function of future/future_op.go and
+    future/func_gen.go of the working tree whose body is a composition of other combinators into an FExpr-building Lean
+    definition (FpVerif/Gen/FutGen.lean, not under version control); the committed theorems of Spec/C06Gen.lean state,
+    function by function and arity by arity, that the translated definition is the model's derived program
+    (Model/Future.lean, FutureChain.lean, FutureMisc.lean; `rfl` up to the closure encoding), that the set of functions
+    and their classes is the expected one (`coverage`), and transport the left-to-right short-circuit theorems."""
+    out = os.path.join(lean, 'FpVerif', 'Gen', 'FutGen.lean')
+    os.makedirs(os.path.dirname(out), exist_ok=True)
+    harness = os.path.join(os.path.dirname(lean), 'harness')
+    env = dict(os.environ, GOFLAGS='-mod=mod', GOPROXY='off', GOSUMDB='off', GOTOOLCHAIN='local')
+    tmp_out = out + '.new.%d' % os.getpid()
+    p = subprocess.run(['go', 'run', './cmd/fut2lean', repo, tmp_out], cwd=harness, env=env, stdout=subprocess.PIPE,
+                       stderr=subprocess.STDOUT, text=True)
+    if p.returncode != 0 or not os.path.exists(tmp_out):
+        if os.path.exists(out):
+            os.remove(out)
+        return dict(error='fut2lean failed: ' + p.stdout[-800:], obligations=1)
+    if not os.path.exists(out) or open(out).read() != open(tmp_out).read():
+        os.replace(tmp_out, out)
+    else:
+        os.remove(tmp_out)
+    info = json.loads(p.stdout.strip().split('\n')[-1])
+    res = dict(translated=len(info['translated']), variants=info.get('variants') or [], primitives=info['primitives'],
+               methods=len(info.get('methods') or []), untranslatable=info['untranslatable'], obligations=1,
+               generated='FpVerif/Gen/FutGen.lean', spec='FpVerif.Spec.C06Gen')
+    unexpected = {k: v for k, v in info['untranslatable'].items() if k not in FUTGEN_EXPECTED_EXCEPTIONS}
+    if unexpected:
+        res['error'] = 'fut2lean: outside the translated fragment: ' + json.dumps(unexpected)[:600]
+    return res
+
+
 import re as _re
 
 def project_future(line):
@@ -547,8 +583,8 @@ CHECKS = {
                      'the stress part (real goroutines, no hooks) is not reproducible from the seed'],
     ),
     'C06': dict(
-        facts=facts_all(facts_atom),
-        spec=['FpVerif.Spec.C06Facts', 'FpVerif.Spec.C05Facts', 'FpVerif.Spec.C06Methods', 'FpVerif.Spec.C06', 'FpVerif.Spec.C06Sound', 'FpVerif.Spec.C06Live', 'FpVerif.Spec.C06Chain', 'FpVerif.Spec.C06Drain', 'FpVerif.Spec.C06Once', 'FpVerif.Spec.C06HO', 'FpVerif.Spec.C14MiscFut',
+        facts=facts_all(facts_atom, facts_futgen),
+        spec=['FpVerif.Spec.C06Gen', 'FpVerif.Spec.C06Facts', 'FpVerif.Spec.C05Facts', 'FpVerif.Spec.C06Methods', 'FpVerif.Spec.C06', 'FpVerif.Spec.C06Sound', 'FpVerif.Spec.C06Live', 'FpVerif.Spec.C06Chain', 'FpVerif.Spec.C06Drain', 'FpVerif.Spec.C06Once', 'FpVerif.Spec.C06HO', 'FpVerif.Spec.C14MiscFut',
               # the task-atomic model ASSUMES that a promise is an atomic single-assignment cell with exactly-once delivery at the level of the
               # individual atomic steps; that reduction is C05, so its theorems and its atomic-step harness are part of this check too
               # (seeds C06-2 / C06-6: a completion that gives up after a lost CAS leaves the derived future pending for ever)
@@ -617,8 +653,8 @@ CHECKS = {
                      'user callbacks do not panic in the theorems'],
     ),
     'C14': dict(
-        spec=['FpVerif.Spec.C14', 'FpVerif.Spec.C14Fut', 'FpVerif.Spec.C14Misc', 'FpVerif.Spec.C14MiscFut', 'FpVerif.Spec.C14Gen', 'FpVerif.Spec.C01Gen', 'FpVerif.Spec.C14ArityGen'],
-        facts=facts_all(facts_tuplegen, facts_monadgen, facts_aritygen),
+        spec=['FpVerif.Spec.C14', 'FpVerif.Spec.C14Fut', 'FpVerif.Spec.C14Misc', 'FpVerif.Spec.C14MiscFut', 'FpVerif.Spec.C14Gen', 'FpVerif.Spec.C01Gen', 'FpVerif.Spec.C14ArityGen', 'FpVerif.Spec.C06Gen'],
+        facts=facts_all(facts_tuplegen, facts_monadgen, facts_aritygen, facts_futgen),
         harnesses=[H('arity', 'oracle_arity', 16000, 1600000, spec_level=True,
                      nontrivial=lambda op, impl: op.count(' ') >= 3),
                    # the eq/ord/hash/monoid/clone TupleN families live in the typeclass machinery (C09-C11, C18)
@@ -916,5 +952,14 @@ for _pid in ('C12', 'C01', 'C11'):
     CHECKS[_pid]['modelled'] = CHECKS[_pid].get('modelled', '') + _TIE_A_SEQ
 CHECKS['C12']['technique'] = ('Lean 4 proof over hand-written executable iterator / lazy-list machines + regenerated Go->Lean translation of the eager Seq reference '
                               'functions proved equal to the list functions of the theorems (Tie A) + differential correspondence check')
+_TIE_A_FUT = (' Session 6, Tie A: harness/cmd/fut2lean TRANSLATES the DERIVED future combinators of future/future_op.go and future/func_gen.go found in the working tree '
+              '(86 of 130 declarations; 9 primitives tied by Tie C + correspondence, 21 builder methods, 14 listed exceptions: Flap*, With, Chain1, Applicative1, Await, getExecutor) '
+              'into FExpr-building definitions (FpVerif/Gen/FutGen.lean); Spec/C06Gen (111 theorems): each equals the model\'s derived program (rfl; Sequence / Traverse through '
+              'fold inductions), coverage of the 130 (name, class) pairs, left-to-right short-circuit theorems restated for the translated definitions. Trusted: Model/FutGenPrelude '
+              '(three helper readings) and the executor reading.')
+for _pid in ('C06', 'C14'):
+    CHECKS[_pid]['modelled'] = CHECKS[_pid].get('modelled', '') + _TIE_A_FUT
+CHECKS['C06']['technique'] = ('Lean 4 proof over hand-written executable task-atomic model + regenerated Go->Lean translation of the derived future combinators proved equal to '
+                              'the model programs (Tie A) + regenerated atomic-step facts (Tie C) + differential correspondence check')
 CHECKS['C16']['technique'] = ('Lean 4 proof over hand-written executable model + regenerated Go->Lean translation of lazy/lazy.go proved equal to the model (Tie A) '
                               '+ regenerated atomic-step / memoisation facts decided by the kernel (Tie C) + differential correspondence check')
